@@ -294,6 +294,6 @@ pub mod sched {
     }
 
     proof!(12, fn c05_s_reset_all_race() { drain_race::<10, 0>(2); });
-    proof!(6, fn c05_s_reset_next_race() { drain_race::<3, 1>(2); });
+    proof!(10, fn c05_s_reset_next_race() { drain_race::<3, 1>(2); });
     proof!(12, fn c05_s_bitset_drain_race() { drain_race::<10, 2>(3); });
 }
